@@ -6,6 +6,7 @@ import (
 	"context"
 	"crypto/md5"
 	"fmt"
+	"io"
 	"os"
 	"path/filepath"
 	"strings"
@@ -112,6 +113,24 @@ func check(s Spec) h.Result {
 		cl = append(cl, "producer:stand-alone-with-short-reads")
 		j2 := h.NewJitter(s.Jitter, 3)
 		swrap = func(p lake.Pool) lake.Pool { return &h.JitterPool{Pool: p, J: j2} }
+	}
+	if s.UsedValidator {
+		// (same draw) the pool handed to stand-alone signing has been used before: a caller sniffed the first
+		// bytes of file 0 through it and did not close it
+		inner := swrap
+		swrap = func(p lake.Pool) lake.Pool {
+			func() {
+				defer func() { recover() }() // a build without files has no file 0 to sniff
+				if r, err := p.GetReader(0); err == nil {
+					io.CopyN(io.Discard, r, 4)
+				}
+			}()
+			if inner != nil {
+				return inner(p)
+			}
+			return p
+		}
+		cl = append(cl, "producer:stand-alone-on-a-used-pool")
 	}
 	c, hs, err := h.SignWith(nd, swrap)
 	if err != nil {
